@@ -36,7 +36,7 @@ signature that the unchanged tree does not produce):
   M5 lang/v2/retry_policy.py: "required": ["delay", "count"] -> ["count"]
        -> internal-error:KeyError@mistral/lang/v2/retry_policy.py:__init__; proof obligation C14_guards_retry broken
   M6 utils/safe_yaml.py: remove fetch_alias / fetch_anchor (aliases expand again)
-       -> see run log: corpus `billion laughs` document is no longer a quick definition error
+       -> hang-risk:alias-amplification (the corpus "billion laughs" document loads to 2M nodes from 400 characters)
 
 Findings on the UNCHANGED tree (each has a minimal witness in CORPUS; the check prints one VIOLATION per signature
 until they are fixed or listed in known_findings.json):
@@ -1016,9 +1016,9 @@ CORPUS = [
     ('wb', "version: '2.0'\nname: wb\nactions:\n  a1: abc\n", 'dsl'),
     ('wb', "version: '2.0'\nname: wb\nworkflows:\n  w1: abc\n", 'dsl'),
     # aliases are not expanded (a "billion laughs" document is a definition error, quickly)
-    ('wf', "version: '2.0'\na: &a [x, x, x, x, x, x, x, x]\nb: &b [*a, *a, *a, *a, *a, *a, *a, *a]\nc: &c [*b, *b, *b, *b, *b, *b, *b, *b]\n"
-           "d: &d [*c, *c, *c, *c, *c, *c, *c, *c]\ne: &e [*d, *d, *d, *d, *d, *d, *d, *d]\nf: &f [*e, *e, *e, *e, *e, *e, *e, *e]\n"
-           "g: &g [*f, *f, *f, *f, *f, *f, *f, *f]\nwf:\n  tasks:\n    t1:\n      action: std.noop\n  output:\n    o: *g\n", 'dsl'),
+    ('wf', "version: '2.0'\nwf:\n  vars:\n    a: &a [x, x, x, x, x, x, x, x]\n    b: &b [*a, *a, *a, *a, *a, *a, *a, *a]\n    c: &c [*b, *b, *b, *b, *b, *b, *b, *b]\n"
+           "    d: &d [*c, *c, *c, *c, *c, *c, *c, *c]\n    e: &e [*d, *d, *d, *d, *d, *d, *d, *d]\n    f: &f [*e, *e, *e, *e, *e, *e, *e, *e]\n"
+           "    g: &g [*f, *f, *f, *f, *f, *f, *f, *f]\n  tasks:\n    t1:\n      action: std.noop\n", 'dsl'),
     # F3 slicing: a task named like a later workflow
     ('wb', "version: '2.0'\nname: wb\nworkflows:\n  wf1:\n    tasks:\n      wf2:\n        action: std.noop\n  wf2:\n    tasks:\n      t:\n        action: std.echo output=1\n", 'accept'),
     ('wb', "version: '2.0'\nname: wb\ndescription: 'my workflows: are here'\nworkflows:\n  wf1:\n    tasks:\n      t:\n        action: std.noop\n", 'accept'),
@@ -1128,6 +1128,14 @@ def process_doc(ctx, kind, text, origin, walk_batch, norm_batch, stats, expect=N
         raw = B['safe_yaml'].load(text)
     except BaseException:
         pass
+    if raw is not None and r['verdict'] != 'crash':
+        cap = 4 * len(text) + 100
+        if count_nodes(raw, cap) > cap:
+            ctx.fail('hang-risk:alias-amplification',
+                     'the loaded document has more than %d nodes for %d characters of text (aliases are expanded): '
+                     'validation and storing cost is not bounded by the size of the definition' % (cap, len(text)),
+                     {'kind': kind, 'text': text, 'origin': origin})
+            return r
     if r['verdict'] == 'accept' and isinstance(raw, dict):
         try:
             oracle_stability(ctx, kind, text, raw, r['spec'])
@@ -1164,6 +1172,20 @@ def process_doc(ctx, kind, text, origin, walk_batch, norm_batch, stats, expect=N
         except Outside:
             pass
     return r
+
+
+def count_nodes(x, cap):
+    """number of nodes of a loaded document, shared sub-structures counted each time, stops above cap"""
+    n = 0
+    stack = [x]
+    while stack and n <= cap:
+        cur = stack.pop()
+        n += 1
+        if isinstance(cur, dict):
+            stack.extend(cur.values())
+        elif isinstance(cur, (list, tuple, set)):
+            stack.extend(cur)
+    return n
 
 
 def new_stats():
